@@ -14,6 +14,12 @@ import (
 // instruction belongs to: the expression text plus its occurrence index in the function.
 func (a *Analyzer) Construct(fn *ssa.Function, ins ssa.Instruction) string {
 	pos := ins.Pos()
+	switch x := ins.(type) {
+	case *ssa.Go:
+		pos = x.Call.Pos()
+	case *ssa.Defer:
+		pos = x.Call.Pos()
+	}
 	syn := fn.Syntax()
 	if syn == nil || !pos.IsValid() {
 		return a.fallbackConstruct(ins)
